@@ -385,7 +385,7 @@ func PKIOperation(ctx context.Context, req request) (Response, error) {
 	// a certificate exists; then it will use RenewalReq. Adding the challenge check here may be a small breaking change for clients.
 	// We'll have to see how it works out.
 	var signCSROpts []provisioner.SignCSROption
-	if msg.MessageType == smallscep.PKCSReq || msg.MessageType == smallscep.RenewalReq {
+	if msg.MessageType == smallscep.PKCSReq || msg.MessageType == smallscep.RenewalReq || msg.MessageType == smallscep.UpdateReq {
 		challengeOptions, err := auth.ValidateChallenge(ctx, csr, challengePassword, transactionID)
 		if err != nil {
 			if errors.Is(err, provisioner.ErrSCEPChallengeInvalid) {
